@@ -93,34 +93,25 @@ theorem normEmit_eq_of_sorted {M : Nat} {s t : Emit} (hst : s.Perm t) (hM : ∀ 
 
 /-! ### the nested shape -/
 
-def nestItemsD (Pi : Nat) (plains : List Nat) : List Item :=
-  Item.sub .dot (List.range Pi) :: plains.map Item.port
+def nestItemsD (Pi : Nat) (plains : List Nat) : List Item := nestItemsAt .dot Pi [] plains
 
-theorem findSub_nestD (Pi : Nat) (plains : List Nat) (p : Nat) :
-    findSub p (nestItemsD Pi plains) 0 = if p < Pi then some (0, Kind.dot, List.range Pi) else none := by
-  simp only [nestItemsD, findSub, List.mem_range]
-  split
-  · rfl
-  · exact findSub_ports p plains 1
+theorem shape_firstD (Pi : Nat) (plains : List Nat) : Shape (nestItemsD Pi plains) 0 .dot Pi plains := by
+  have := shape_at .dot Pi [] plains
+  simpa [nestItemsD] using this
 
-theorem plainEv_itemD {Pi : Nat} {plains : List Nat} {e : Ev} (h : e.1 ∈ plains) :
-    ∃ j, findPort e.1 (nestItemsD Pi plains) 0 = some j ∧ 1 ≤ j ∧ j < (nestItemsD Pi plains).length := by
-  obtain ⟨j, h1, h2, h3⟩ := findPort_ports e.1 plains 1 h
-  refine ⟨j, by simp only [nestItemsD, findPort]; exact h1, h2, ?_⟩
-  simp [nestItemsD]; omega
-
-theorem derived_splitD (Pi : Nat) (plains : List Nat) : ∀ (es : List Ev) (inn : List (Nat × TV)),
-    (runWith (dotAdd Pi) (es.filter (isInner Pi)) ((inn.lookup 0).getD []) []).err = none →
-    (derived (nestItemsD Pi plains) es inn).Perm
-      ((runWith (dotAdd Pi) (es.filter (isInner Pi)) ((inn.lookup 0).getD []) []).out.map mk0
-        ++ (es.filter (fun e => !isInner Pi e)).map (plainEv (nestItemsD Pi plains))) := by
+theorem derived_splitD {items : List Item} {i0 Pi : Nat} {plains : List Nat} (hs : Shape items i0 .dot Pi plains) :
+    ∀ (es : List Ev) (inn : List (Nat × TV)),
+    (runWith (dotAdd Pi) (es.filter (isInner Pi)) ((inn.lookup i0).getD []) []).err = none →
+    (derived items es inn).Perm
+      ((runWith (dotAdd Pi) (es.filter (isInner Pi)) ((inn.lookup i0).getD []) []).out.map (mkI i0)
+        ++ (es.filter (fun e => !isInner Pi e)).map (plainEv items)) := by
   intro es
   induction es with
   | nil => intro inn _; simp [derived, runWith]
   | cons ev es ih =>
     obtain ⟨p, t⟩ := ev
     intro inn herr
-    simp only [derived, findSub_nestD]
+    simp only [derived, hs.sub]
     by_cases hp : p < Pi
     · have hf1 : ((p, t) :: es).filter (isInner Pi) = (p, t) :: es.filter (isInner Pi) := by
         simp [List.filter_cons, isInner, hp]
@@ -130,7 +121,7 @@ theorem derived_splitD (Pi : Nat) (plains : List Nat) : ∀ (es : List Ev) (inn 
       rw [hf2]
       simp only [hp, if_true, innerAdd, List.length_range]
       simp only [runWith] at herr ⊢
-      generalize hr : dotAdd Pi ((inn.lookup 0).getD []) p (Elem.ofTok p t) = r at herr ⊢
+      generalize hr : dotAdd Pi ((inn.lookup i0).getD []) p (Elem.ofTok p t) = r at herr ⊢
       cases hre : r.err with
       | some x => rw [hre] at herr; simp at herr
       | none =>
@@ -138,8 +129,8 @@ theorem derived_splitD (Pi : Nat) (plains : List Nat) : ∀ (es : List Ev) (inn 
         simp only at herr ⊢
         rw [runWith_shift] at herr
         simp only at herr
-        have hl : ((setI inn 0 r.tv).lookup 0).getD [] = r.tv := by rw [lookup_setI]; rfl
-        have := ih (setI inn 0 r.tv) (by rw [hl]; exact herr)
+        have hl : ((setI inn i0 r.tv).lookup i0).getD [] = r.tv := by rw [lookup_setI]; rfl
+        have := ih (setI inn i0 r.tv) (by rw [hl]; exact herr)
         rw [hl] at this
         rw [runWith_shift]
         simp only [List.nil_append, List.map_append, List.append_assoc]
@@ -154,23 +145,24 @@ theorem derived_splitD (Pi : Nat) (plains : List Nat) : ∀ (es : List Ev) (inn 
       refine (List.Perm.cons _ (ih inn herr)).trans ?_
       exact List.perm_middle.symm
 
-theorem innerOK_dot (Pi : Nat) (plains : List Nat) : ∀ (es : List Ev) (inn : List (Nat × TV)),
-    (runWith (dotAdd Pi) (es.filter (isInner Pi)) ((inn.lookup 0).getD []) []).err = none →
-    InnerOK (nestItemsD Pi plains) es inn := by
+theorem innerOK_dot {items : List Item} {i0 Pi : Nat} {plains : List Nat} (hs : Shape items i0 .dot Pi plains) :
+    ∀ (es : List Ev) (inn : List (Nat × TV)),
+    (runWith (dotAdd Pi) (es.filter (isInner Pi)) ((inn.lookup i0).getD []) []).err = none →
+    InnerOK items es inn := by
   intro es
   induction es with
   | nil => intro inn _; trivial
   | cons ev es ih =>
     obtain ⟨p, t⟩ := ev
     intro inn herr
-    simp only [InnerOK, findSub_nestD]
+    simp only [InnerOK, hs.sub]
     by_cases hp : p < Pi
     · have hf1 : ((p, t) :: es).filter (isInner Pi) = (p, t) :: es.filter (isInner Pi) := by
         simp [List.filter_cons, isInner, hp]
       rw [hf1] at herr
       simp only [hp, if_true, innerAdd, List.length_range]
       simp only [runWith] at herr
-      generalize hr : dotAdd Pi ((inn.lookup 0).getD []) p (Elem.ofTok p t) = r at herr ⊢
+      generalize hr : dotAdd Pi ((inn.lookup i0).getD []) p (Elem.ofTok p t) = r at herr ⊢
       cases hre : r.err with
       | some x => rw [hre] at herr; simp at herr
       | none =>
@@ -178,8 +170,8 @@ theorem innerOK_dot (Pi : Nat) (plains : List Nat) : ∀ (es : List Ev) (inn : L
         simp only at herr
         rw [runWith_shift] at herr
         simp only at herr
-        have hl : ((setI inn 0 r.tv).lookup 0).getD [] = r.tv := by rw [lookup_setI]; rfl
-        exact ⟨rfl, ih (setI inn 0 r.tv) (by rw [hl]; exact herr)⟩
+        have hl : ((setI inn i0 r.tv).lookup i0).getD [] = r.tv := by rw [lookup_setI]; rfl
+        exact ⟨rfl, ih (setI inn i0 r.tv) (by rw [hl]; exact herr)⟩
     · have hf1 : ((p, t) :: es).filter (isInner Pi) = es.filter (isInner Pi) := by
         simp [List.filter_cons, isInner, hp]
       rw [hf1] at herr
@@ -203,11 +195,11 @@ theorem runWith_eq_runWithE (add : TV → Nat → Elem → Res) : ∀ (es : List
 def canonEv (M : Nat) (x : CF.Ev) : CF.Ev := (x.1, ⟨x.2.tag, normEmit M x.2.toks⟩)
 
 /-- a specified inner emission as the outer combinator should file it -/
-def innerEv (x : Tag × List Elem) : CF.Ev := (0, ⟨x.1, renderCF x.1 x.2⟩)
+def innerEv (i0 : Nat) (x : Tag × List Elem) : CF.Ev := (i0, ⟨x.1, renderCF x.1 x.2⟩)
 
-def derivedSpecD (Pi : Nat) (plains : List Nat) (S : List Ev) : List CF.Ev :=
-  (specE Pi ((S.filter (isInner Pi)).map liftEv)).map innerEv ++
-    (S.filter (fun e => !isInner Pi e)).map (plainEv (nestItemsD Pi plains))
+def derivedSpecD (items : List Item) (i0 Pi : Nat) (S : List Ev) : List CF.Ev :=
+  (specE Pi ((S.filter (isInner Pi)).map liftEv)).map (innerEv i0) ++
+    (S.filter (fun e => !isInner Pi e)).map (plainEv items)
 
 structure WFNestD (Pi M : Nat) (plains : List Nat) (S : List Ev) : Prop where
   pos : 0 < Pi
@@ -309,8 +301,9 @@ theorem WF_of_map {P : Nat} {D : List CF.Ev} (g : CF.Ev → CF.Ev)
       (by rw [(hg x).1, (hg x').1]; exact hi) (by rw [(hg x).2, (hg x').2]; exact hpre)
     exact inj_of_nodup_map hnd hx hx' this
 
-theorem derivedSpecD_wf_ok {Pi M : Nat} {plains : List Nat} {S : List Ev} (h : WFNestD Pi M plains S) :
-    CF.WF (plains.length + 1) (derivedSpecD Pi plains S) ∧ ∀ x ∈ derivedSpecD Pi plains S, ElemOK x.2 := by
+theorem derivedSpecD_wf_ok {Pi M : Nat} {plains : List Nat} {S : List Ev} (h : WFNestD Pi M plains S)
+    {items : List Item} {i0 : Nat} (hs : Shape items i0 .dot Pi plains) :
+    CF.WF items.length (derivedSpecD items i0 Pi S) ∧ ∀ x ∈ derivedSpecD items i0 Pi S, ElemOK x.2 := by
   have hplain : ∀ e ∈ S.filter (fun e => !isInner Pi e), e ∈ S ∧ ¬ e.1 < Pi ∧ e.1 ∈ plains := by
     intro e he
     obtain ⟨h1, h2⟩ := List.mem_filter.mp he
@@ -342,19 +335,18 @@ theorem derivedSpecD_wf_ok {Pi M : Nat} {plains : List Nat} {S : List Ev} (h : W
       · intro a ha b hb hab
         obtain ⟨x, _, rfl⟩ := List.mem_map.mp ha
         obtain ⟨e, he, rfl⟩ := List.mem_map.mp hb
-        obtain ⟨j, hj, hj1, _⟩ := plainEv_itemD (Pi := Pi) (hplain e he).2.2
+        obtain ⟨j, hj, hj1, _⟩ := hs.port e.1 (hplain e he).2.2
         have := congrArg Prod.fst hab
         simp only [innerEv, plainEv, hj, Option.getD_some] at this
-        omega
+        exact hj1 this.symm
     · intro x hx
       rcases List.mem_append.mp hx with hx | hx
       · obtain ⟨y, _, rfl⟩ := List.mem_map.mp hx
-        simp [innerEv]
+        exact hs.pos
       · obtain ⟨e, he, rfl⟩ := List.mem_map.mp hx
-        obtain ⟨j, hj, _, hj2⟩ := plainEv_itemD (Pi := Pi) (hplain e he).2.2
-        have hlen : (nestItemsD Pi plains).length = plains.length + 1 := by simp [nestItemsD]
+        obtain ⟨j, hj, _, hj2⟩ := hs.port e.1 (hplain e he).2.2
         simp only [plainEv, hj, Option.getD_some]
-        omega
+        exact hj2
     · intro x hx x' hx' hitem hpre
       rcases List.mem_append.mp hx with hx | hx <;> rcases List.mem_append.mp hx' with hx' | hx'
       · -- two specified inner emissions: complete received tags form an antichain
@@ -378,25 +370,23 @@ theorem derivedSpecD_wf_ok {Pi M : Nat} {plains : List Nat} {S : List Ev} (h : W
         rw [hyy]
       · obtain ⟨y, _, rfl⟩ := List.mem_map.mp hx
         obtain ⟨e, he, rfl⟩ := List.mem_map.mp hx'
-        obtain ⟨j, hj, hj1, _⟩ := plainEv_itemD (Pi := Pi) (hplain e he).2.2
+        obtain ⟨j, hj, hj1, _⟩ := hs.port e.1 (hplain e he).2.2
         simp only [innerEv, plainEv, hj, Option.getD_some] at hitem
-        omega
+        exact absurd hitem.symm hj1
       · obtain ⟨e, he, rfl⟩ := List.mem_map.mp hx
         obtain ⟨y, _, rfl⟩ := List.mem_map.mp hx'
-        obtain ⟨j, hj, hj1, _⟩ := plainEv_itemD (Pi := Pi) (hplain e he).2.2
+        obtain ⟨j, hj, hj1, _⟩ := hs.port e.1 (hplain e he).2.2
         simp only [innerEv, plainEv, hj, Option.getD_some] at hitem
-        omega
+        exact absurd hitem hj1
       · obtain ⟨e, he, rfl⟩ := List.mem_map.mp hx
         obtain ⟨e', he', rfl⟩ := List.mem_map.mp hx'
         obtain ⟨heS, hni, hpl⟩ := hplain e he
         obtain ⟨heS', _, hpl'⟩ := hplain e' he'
-        obtain ⟨j, hj, _, _⟩ := plainEv_itemD (Pi := Pi) hpl
-        obtain ⟨j', hj', _, _⟩ := plainEv_itemD (Pi := Pi) hpl'
+        obtain ⟨j, hj, _, _⟩ := hs.port e.1 hpl
+        obtain ⟨j', hj', _, _⟩ := hs.port e'.1 hpl'
         simp only [plainEv, hj, hj', Option.getD_some] at hitem
         subst hitem
-        have hport : e.1 = e'.1 := by
-          simp only [nestItemsD, findPort] at hj hj'
-          exact findPort_inj _ _ _ _ _ hj hj'
+        have hport : e.1 = e'.1 := findPort_inj_gen _ _ _ _ _ hj hj'
         have hpre' : e.2.tag <+: e'.2.tag := by
           have := (CF.pre_iff.mp hpre).1
           simpa [plainEv, Elem.ofTok] using this
@@ -431,11 +421,11 @@ theorem canonEv_plain {M : Nat} (items : List Item) {e : Ev} (he : e.1 < M) :
     element stream `derivedSpecD` (a function of the input stream only: the specified emissions of the inner dot
     product and the tokens of the plain ports), and it emits, schema by schema up to the order of the entries,
     exactly one combination per complete tag of `D`. -/
-theorem nested_dot_any_order {Pi M : Nat} {plains : List Nat} (S es : List Ev) (h : WFNestD Pi M plains S)
-    (hp : es.Perm S) :
-    (runNested (nestItemsD Pi plains) es).err = none ∧
-    ∃ D N, (D.map (canonEv M)).Perm (derivedSpecD Pi plains S) ∧
-      EmRel (runNested (nestItemsD Pi plains) es).out N ∧ N.Perm (specE (plains.length + 1) D) := by
+theorem nested_dot_any_order {Pi M : Nat} {plains : List Nat} {items : List Item} {i0 : Nat}
+    (hs : Shape items i0 .dot Pi plains) (S es : List Ev) (h : WFNestD Pi M plains S) (hp : es.Perm S) :
+    (runNested items es).err = none ∧
+    ∃ D N, (D.map (canonEv M)).Perm (derivedSpecD items i0 Pi S) ∧
+      EmRel (runNested items es).out N ∧ N.Perm (specE items.length D) := by
   have hin : (es.filter (isInner Pi)).Perm (S.filter (isInner Pi)) := hp.filter _
   have hwfI := WFDot_perm hin h.inner
   have hRwf := wf_of_WFDot hwfI
@@ -468,30 +458,30 @@ theorem nested_dot_any_order {Pi M : Nat} {plains : List Nat} (S es : List Ev) (
     refine ⟨schemaTag_uniform hsne f1 hst, ?_, hsne, hst, f1⟩
     exact normEmit_eq_of_sorted hs (fun y hy => Nat.lt_of_lt_of_le (f3 y (hs.subset hy)).2 h.bound.1) f4 f5
   -- the derived stream
-  have hsplit := derived_splitD Pi plains es [] (by simpa using herr0)
+  have hsplit := derived_splitD hs es [] (by simpa using herr0)
   simp only [List.lookup, Option.getD_none] at hsplit
   rw [hout0] at hsplit
-  have hcanA : (out0.map mk0).map (canonEv M) = N0.map innerEv := by
+  have hcanA : (out0.map (mkI i0)).map (canonEv M) = N0.map (innerEv i0) := by
     rw [List.map_map]
     apply hrel0.map_eq
     intro s x hx hs
     obtain ⟨h1, h2, _, _, _⟩ := hpair s x hx hs
-    simp only [Function.comp, canonEv, mk0, innerEv, h1, h2]
-  have hcanB : ((es.filter (fun e => !isInner Pi e)).map (plainEv (nestItemsD Pi plains))).map (canonEv M)
-      = (es.filter (fun e => !isInner Pi e)).map (plainEv (nestItemsD Pi plains)) := by
+    simp only [Function.comp, canonEv, mkI, innerEv, h1, h2]
+  have hcanB : ((es.filter (fun e => !isInner Pi e)).map (plainEv items)).map (canonEv M)
+      = (es.filter (fun e => !isInner Pi e)).map (plainEv items) := by
     rw [List.map_map]
     apply List.map_congr_left
     intro e he
     exact canonEv_plain _ (h.bound.2 e (hp.subset (List.mem_filter.mp he).1))
-  have hD : ((derived (nestItemsD Pi plains) es []).map (canonEv M)).Perm (derivedSpecD Pi plains S) := by
+  have hD : ((derived items es []).map (canonEv M)).Perm (derivedSpecD items i0 Pi S) := by
     refine (hsplit.map (canonEv M)).trans ?_
     rw [List.map_append, hcanA, hcanB]
     unfold derivedSpecD
-    exact (hN0.map innerEv).append ((hp.filter _).map _)
-  obtain ⟨hwfS, _⟩ := derivedSpecD_wf_ok h
-  have hwfD : CF.WF (plains.length + 1) (derived (nestItemsD Pi plains) es []) :=
+    exact (hN0.map (innerEv i0)).append ((hp.filter _).map _)
+  obtain ⟨hwfS, _⟩ := derivedSpecD_wf_ok h hs
+  have hwfD : CF.WF items.length (derived items es []) :=
     WF_of_map (canonEv M) (fun x => ⟨rfl, rfl⟩) (CF.WF_perm _ hD hwfS)
-  have hokD : ∀ x ∈ derived (nestItemsD Pi plains) es [], ElemOK x.2 := by
+  have hokD : ∀ x ∈ derived items es [], ElemOK x.2 := by
     intro x hx
     rcases List.mem_append.mp (hsplit.subset hx) with hx | hx
     · obtain ⟨s, hs, rfl⟩ := List.mem_map.mp hx
@@ -509,12 +499,11 @@ theorem nested_dot_any_order {Pi M : Nat} {plains : List Nat} (S es : List Ev) (
       intro y hy
       simp only [plainEv, Elem.ofTok, List.mem_singleton] at hy
       rw [hy]; rfl
-  have hlen : (nestItemsD Pi plains).length = plains.length + 1 := by simp [nestItemsD]
   obtain ⟨hE, N, hN1, hN2⟩ := dotElems_any_order _ _ hwfD hokD (List.Perm.refl _)
   refine ⟨?_, _, N, hD, ?_, hN2⟩
-  · rw [runNested_err _ _ (innerOK_dot Pi plains es [] (by simpa using herr0)), hlen]
+  · rw [runNested_err _ _ (innerOK_dot hs es [] (by simpa using herr0))]
     exact hE
-  · rw [runNested_out, hlen]
+  · rw [runNested_out]
     exact hN1
 
 end SFV.Comb
